@@ -510,26 +510,32 @@ func (c *columns) Store(columnName string, main *column, index ...*column) {
 			continue
 		}
 
-		// If we found an existing entry, update it and we're done
+		// If we found an existing entry, replace it in a copy of the registry
+		// (readers iterate over the current one without holding a lock)
+		entry := make([]*column, len(v.cols), len(v.cols)+len(index))
+		copy(entry, v.cols)
 		if main != nil {
-			columns[i].cols[0] = main
+			entry[0] = main
 		}
-		if index != nil {
-			columns[i].cols = append(columns[i].cols, index...)
-		}
-		c.cols.Store(columns)
+		entry = append(entry, index...)
 
+		updated := make([]columnEntry, len(columns), cap(columns))
+		copy(updated, columns)
+		updated[i].cols = entry
+		c.cols.Store(updated)
 		return
 	}
 
 	// No entry found, create a new one
 	value := []*column{main}
 	value = append(value, index...)
-	columns = append(columns, columnEntry{
+	updated := make([]columnEntry, len(columns), cap(columns)+1)
+	copy(updated, columns)
+	updated = append(updated, columnEntry{
 		name: columnName,
 		cols: value,
 	})
-	c.cols.Store(columns)
+	c.cols.Store(updated)
 }
 
 // DeleteColumn deletes a column from the registry.
@@ -548,21 +554,23 @@ func (c *columns) DeleteColumn(columnName string) {
 func (c *columns) DeleteIndex(columnName, indexName string) {
 	index, _ := c.Load(indexName)
 	columns := c.cols.Load().([]columnEntry)
-	for i, v := range columns {
+	updated := make([]columnEntry, len(columns), cap(columns))
+	copy(updated, columns)
+	for i, v := range updated {
 		if v.name != columnName {
 			continue
 		}
 
 		// If this is the target column, update its computed columns
-		filtered := make([]*column, 0, cap(columns[i].cols))
-		filtered = append(filtered, columns[i].cols[0])
+		filtered := make([]*column, 0, cap(v.cols))
+		filtered = append(filtered, v.cols[0])
 		for _, idx := range v.cols[1:] {
 			if idx != index {
 				filtered = append(filtered, idx)
 			}
 		}
-		columns[i].cols = filtered
+		updated[i].cols = filtered
 	}
 
-	c.cols.Store(columns)
+	c.cols.Store(updated)
 }
